@@ -40,10 +40,13 @@ def items(tier, seed):
     else:
         joint = ipc.configs_v4("quick")
     for cfg in joint:
-        out.append(Item("C01", "pair_joint", dict(family=4, cfg=cfg), budget_s=900 if tier == "thorough" else 240, obligation="H2-pair-joint-v4"))
+        heavy = cfg["prefixes"] is None or bool(cfg["networks"])
+        for lo, hi in ipc.shards(33, 4 if heavy else 2):
+            out.append(Item("C01", "pair_joint", dict(family=4, cfg=cfg, ms=[lo, hi]), budget_s=1200 if tier == "thorough" else 300, obligation="H2-pair-joint-v4"))
     if tier == "thorough":
         for b in (0, 8):
-            out.append(Item("C01", "pair_joint", dict(family=6, cfg=dict(prefixes=None, networks=None, B=b)), budget_s=3000, obligation="H2-pair-joint-v6"))
+            for lo, hi in ipc.shards(129, 16):
+                out.append(Item("C01", "pair_joint", dict(family=6, cfg=dict(prefixes=None, networks=None, B=b), ms=[lo, hi]), budget_s=3000, obligation="H2-pair-joint-v6"))
     for n in range(0, 4):
         out.append(Item("C01", "bit_function", dict(n=n), budget_s=60, obligation="H3-bit-function"))
     return out
@@ -98,35 +101,39 @@ def pair_joint(item, res):
     cfg, family = item.params["cfg"], item.params["family"]
     W = ipc.width(family)
     a, sa = ipc.sym_addr("a", W)
-    b, sb = ipc.sym_addr("b", W)
     ex = Explorer(deadline=time.time() + item.budget_s)
     found = []
+    lo, hi = item.params.get("ms", [0, W + 1])
 
     def h(ex_):
         an = ipc.make(cfg, family)
+        # b is arbitrary: exhaustive case split on the number of leading bits it shares with a
+        mm = lo + ex_.choice(hi - lo, "shared-prefix")
+        b = ipc.related(a, mm, "b_free", W)
         ra = an.anonymize(sa)
-        rb = an.anonymize(sb)
+        rb = an.anonymize(SInt.unsigned(b) if not z3.is_bv_value(b) else b.as_long())
         oa, ob = ipc.out_bv(ra, W), ipc.out_bv(rb, W)
         res["finals"] += 1
         m = ex_.model(ipc.cpl_violation(a, b, oa, ob, W))
         if m is None:
             res["finals_unsat"] += 1
-            return ("ok", oa, ob)
+            return ("ok", oa, ob, b)
         found.append(_pair_witness(m, cfg, family, a, b, True))
-        return ("cex", oa, ob)
+        return ("cex", oa, ob, b)
     paths = ex.explore(h)
     harness.add_stats(res, ex)
     nval = 0
     for p in paths:
         if p.exc is not None:
-            av, bv = ev(p.model, a), ev(p.model, b)
+            av = ev(p.model, a)
+            bv = ev(p.model, ipc.related(a, lo + (p.decisions[0] if p.decisions else 0), "b_free", W))
             table, rr = ipc.md5_table_for(p.model, cfg, family, [["a", av], ["a", bv]])
             res["violations"].append(dict(description="anonymize raises %s on a shared instance" % type(p.exc).__name__,
                                           witness=dict(a=av, b=bv, cfg=ipc.cfg_key(cfg), plain_results=rr["results"]), tags=["anonymize-raises"],
                                           replay=dict(replayer="ip_pair", args=dict(family=family, cfg=cfg, a=av, b=bv, shared=True, md5_table=table))))
             continue
         if p.model is not None and nval < 40:
-            av, bv = ev(p.model, a), ev(p.model, b)
+            av, bv = ev(p.model, a), ev(p.model, p.result[3])
             _, rr = ipc.md5_table_for(p.model, cfg, family, [["a", av], ["a", bv]])
             want = [ev(p.model, p.result[1]), ev(p.model, p.result[2])]
             if rr["results"] != want:
